@@ -122,8 +122,12 @@ def cases(ctx, n, multi_match=True, **tgkw):
         if rng.random() < 0.5:
             cfg["sub_fields"] = es.sub_fields(CORPUS_SCHEMA)
         d = r["ok"]
+        partial = rng.random() < 0.4
         for _, node in common.tree_nodes(d):
-            node.update(h="", t="", p=None, s=None)
+            # (partial: what a user transformer that yields fresh items, or an in-place edit of a parsed tree, leaves:
+            # some nodes with the parser's positions and layout, some without -- seeded C07-G)
+            if not partial or rng.random() < 0.5:
+                node.update(h="", t="", p=None, s=None)
         out.append((CORPUS_SCHEMA, cfg, d))
     schema = None
     for i in range(n):
